@@ -550,6 +550,29 @@ func (e *ShapeEmbB) Unmarshal(cm *confmap.Conf) error {
 	return cm.Unmarshal(e, confmap.WithIgnoreUnused())
 }
 
+// ShapeEmbC moves a deprecated key to its new name in its own Unmarshal: the secret ends up under a key the input
+// does not have.
+type ShapeEmbC struct {
+	TokC configopaque.String `mapstructure:"tok_c"`
+	Old  configopaque.String `mapstructure:"old_tok_c"`
+}
+
+func (e *ShapeEmbC) Unmarshal(cm *confmap.Conf) error {
+	if err := cm.Unmarshal(e, confmap.WithIgnoreUnused()); err != nil {
+		return err
+	}
+	if e.Old != "" {
+		e.TokC, e.Old = e.Old, ""
+	}
+	return nil
+}
+
+type shapeSquashMoved struct {
+	ShapeEmbC `mapstructure:",squash"`
+	ShapeEmbB `mapstructure:",squash"`
+	Other     string `mapstructure:"other"`
+}
+
 type shapeNestedU struct {
 	Tok configopaque.String `mapstructure:"tok"`
 }
@@ -582,6 +605,7 @@ type shapeAll struct {
 	SqP    shapeSquashPlain     `mapstructure:"sq_plain"`
 	Sq2    shapeSquashTwoU      `mapstructure:"sq_two"`
 	Sq1    shapeSquashOneU      `mapstructure:"sq_one"`
+	SqM    shapeSquashMoved     `mapstructure:"sq_moved"`
 }
 
 func shapePositives(c *driver.Ctx, sec string) {
@@ -591,6 +615,7 @@ func shapePositives(c *driver.Ctx, sec string) {
 		"sq_plain": map[string]any{"tok": sec, "other": "o"},
 		"sq_two":   map[string]any{"tok_a": sec, "hdr_a": map[string]any{"h": sec}, "tok_b": sec, "other": "o"},
 		"sq_one":   map[string]any{"tok_a": sec, "hdr_a": map[string]any{"h": sec}, "other": "o"},
+		"sq_moved": map[string]any{"old_tok_c": sec, "tok_b": sec, "other": "o"},
 	}
 	check := func(target string, got *shapeAll, err error) {
 		if err != nil {
@@ -627,6 +652,9 @@ func shapePositives(c *driver.Ctx, sec string) {
 		add("squash-two-unmarshalers/second", got.Sq2.TokB)
 		add("squash-unmarshaler-under-outer-unmarshal", got.Sq1.TokA)
 		add("squash-unmarshaler-under-outer-unmarshal/headers", got.Sq1.HdrA["h"])
+		if sec != "" {
+			add("squash-unmarshaler-that-moves-a-deprecated-key", got.SqM.TokC)
+		}
 		for _, p := range ps {
 			if !p.ok || string(p.got) != sec {
 				c.Violation("unmarshal", fmt.Sprintf("confmap.Unmarshal (%s) did not store the secret unchanged in the %s shape: got %q", target, p.shape, string(p.got)),
